@@ -33,7 +33,7 @@ NO_BUILTIN = ["fwrite", "fread", "fopen", "fclose", "fseek", "ftell", "malloc", 
               "free", "fputs", "fputc", "fprintf", "printf", "puts", "putchar"]
 WRAP_IO = ["fopen", "fclose", "fwrite", "gettimeofday", "getpid",
            "malloc", "calloc", "realloc", "free"]
-WRAP_SCHED = ["pthread_create", "pthread_join", "pthread_cancel", "pthread_mutex_init",
+WRAP_SCHED = ["pthread_create", "pthread_join", "pthread_cancel", "pthread_mutex_init", "pthread_mutex_trylock",
               "pthread_mutex_lock", "pthread_mutex_unlock", "pthread_setcancelstate",
               "pthread_setcanceltype", "usleep", "socket", "setsockopt", "bind", "listen", "accept",
               "close", "access", "system", "printf", "puts", "putchar"]
